@@ -1589,7 +1589,11 @@ func (ls *LState) Error(lv LValue, level int) {
 	if str, ok := lv.(LString); ok {
 		ls.raiseError(level, string(str))
 	} else {
-		ls.Push(lv)
+		if ls.reg.IsFull() {
+			// as in raiseError: the value being raised has to fit, whatever the limit says
+			ls.reg.forceResize(ls.reg.Top() + 1)
+		}
+		ls.reg.Push(lv)
 		ls.Panic(ls)
 	}
 }
